@@ -146,7 +146,9 @@ func (demuxer *Demuxer) Close() error {
 	}
 
 	demuxer.closed = true
-	demuxer.recvQueue.Signal()
+	// a queued nil instead of a bare Signal: the wake-up cannot be lost when the
+	// goroutine has tested the flag but not yet started to wait
+	demuxer.recvQueue.Push(nil)
 	return nil
 }
 
